@@ -267,6 +267,8 @@ ARRAY_IO_SUBST = IO_SUBST + [
     (r"(?s)owning_data_t\s*\(\s*(\w+)\s*,\s*std::move\s*\(\s*(\w+)\s*\)\s*\)", r"verif_array_own_ctor(\1, \2)", 0, True),
     (r"(?s)std::\s*is_same_v\s*<\s*OUT_SCALAR_T\s*,\s*float\s*>", "(sizeof(OUT_SCALAR_T) == 4)", 0, True),
     (r"(?s)std::\s*is_same_v\s*<\s*OUT_SCALAR_T\s*,\s*double\s*>", "(sizeof(OUT_SCALAR_T) == 8)", 0, True),
+    (r"\bm_ptr\s*\.\s*get\s*\(\s*\)", "m_ptr", 0, True),
+    (r"\bvector_t\b", "OUT_VEC_T", 0, True),
 ]
 
 
